@@ -979,7 +979,36 @@ def rule_schnorr_key_range_on_both_arms(ctx: Ctx, rep: Report) -> None:
     rep.floor("C04.schnorr_key_range_on_both_arms", 1)
 
 
+def rule_one_private_key_reader(ctx: Ctx, rep: Report) -> None:
+    """C04.one_private_key_reader: the library has a wide reader of private keys
+    (`int_from_prv_key`: int, octets, hex, WIF, xprv) and a narrow one
+    (`scalar_from_prv_key`), and a module's two arms sit in the same module:
+    each module reads private keys with one of the two, never both -- a
+    bindings arm on the narrow reader refuses the WIF its Python sibling
+    signs with."""
+    rule = "C04.one_private_key_reader"
+    n = 0
+    for mname, mi in sorted(ctx.prog.modules.items()):
+        used: dict[str, ast.Call] = {}
+        for q, fi in sorted(ctx.prog.functions.items()):
+            if fi.module is not mi:
+                continue
+            for c in own_nodes(fi.node):
+                if isinstance(c, ast.Call) and call_name(c) in ("int_from_prv_key", "scalar_from_prv_key") and call_name(c) != fi.node.name:
+                    used.setdefault(call_name(c), c)
+        if not used or mname == "btclib.to_prv_key":
+            continue
+        n += 1
+        ok = len(used) == 1
+        first = sorted(used.items(), key=lambda kv: kv[1].lineno)[-1][1]
+        rep.ob(rule, mname, ok, f"{mi.relpath}:{first.lineno}", f"reads private keys with `{next(iter(used))}` throughout" if ok else
+               f"reads private keys with both `int_from_prv_key` and `scalar_from_prv_key`: the spellings one accepts and the other refuses (WIF, xprv) are accepted on one arm and refused on the other")
+    rep.floor(rule, 10)
+
+
 RULES = [
+    ("C04.one_private_key_reader", rule_one_private_key_reader),
+
     ("C04.schnorr_key_range_on_both_arms", rule_schnorr_key_range_on_both_arms),
 
     ("C04.scan_takes_outputs_in_order", rule_scan_takes_outputs_in_order),
